@@ -71,11 +71,45 @@ def sym_scalar(E, name="k"):
     return k, kb
 
 
+# first character / length of Base58Check strings by (first payload byte, payload length); each row
+# is a lemma proved in C09 (WIF) / C07 (extended keys) as an integer-arithmetic query over all
+# payload tails and checksums
+FIRST_CHAR = {(0x80, 34): ("KL", 52), (0x80, 33): ("5", 51), (0xef, 34): ("c", 52), (0xef, 33): ("9", 51)}
+
+
 class B58C:
     """what the Base58Check boundary received (summary used by harnesses of other properties)"""
 
     def __init__(self, payload):
         self.payload = payload
+
+    def _row(self):
+        p0 = self.payload[0]
+        if not isinstance(p0, int):
+            from sx.core import Unsupported
+            raise Unsupported("first character of a Base58Check string with symbolic version byte")
+        row = FIRST_CHAR.get((p0, len(self.payload)))
+        if row is None:
+            from sx.core import Unsupported
+            raise Unsupported("no first-character lemma for payload %02x/%d" % (p0, len(self.payload)))
+        return row
+
+    def __getitem__(self, i):
+        if i != 0:
+            from sx.core import Unsupported
+            raise Unsupported("character %r of a Base58Check summary" % (i,))
+        alpha, _ = self._row()
+        if len(alpha) == 1:
+            return alpha
+        from sx import core
+        from sx.values import SxChar, SxInt
+        import z3
+        v = core.CTX.newvar("b58first", z3.IntSort())
+        core.CTX.add(v >= 0, v < len(alpha))
+        return SxChar(alpha, SxInt(v, 0, len(alpha) - 1))
+
+    def __len__(self):
+        return self._row()[1]
 
     def __eq__(self, o):
         return isinstance(o, B58C) and (self.payload == o.payload)
